@@ -101,6 +101,13 @@ type Step struct {
 	// another fid (and with os.Remove in B) before the operation
 	Stale bool `json:"stale,omitempty"`
 
+	// Use > 0: the step is sent through the Use-th fid (1-based) of the list
+	// of fids kept alive by earlier steps instead of a freshly walked one
+	// (Path is then that fid's object). Keep: the fid is kept alive after the
+	// step (it joins the list) instead of being clunked.
+	Use  int  `json:"use,omitempty"`
+	Keep bool `json:"keep,omitempty"`
+
 	// wstat
 	SetMode  bool   `json:"setmode,omitempty"`
 	WMode    uint32 `json:"wmode,omitempty"` // permission bits
@@ -395,6 +402,102 @@ type machine struct {
 	setM    map[uint64]mtKey // B inode -> mtime observed in B right after it was set explicitly
 	created map[uint64]bool  // B inodes created by earlier steps of this history
 	known   func(id string) bool
+	held    []*held // fids kept alive across steps
+	cur     *held   // the fid of the step being executed
+}
+
+// held is a fid that lives across steps, with what the twin side knows about
+// it: the object it was walked to (or created / renamed as), and for fids that
+// are open on a regular file the B handle opened with the corresponding flags.
+type held struct {
+	fid        uint32
+	comps      [][]byte
+	inoA, inoB uint64
+	opened     bool
+	mode       uint8
+	fB         *os.File
+	alive      bool // false once a Tremove was sent (it clunks, also on error)
+	keepable   bool
+}
+
+const maxHeld = 4
+
+// acquire returns the fid the step goes through: a kept one or a fresh walk.
+func (m *machine) acquire(s *Step) (*held, error) {
+	if s.Use > 0 {
+		if s.Use > len(m.held) {
+			return nil, harnessf("step uses kept fid %d of %d", s.Use, len(m.held))
+		}
+		h := m.held[s.Use-1]
+		if relOf(h.comps) != relOf(s.Path) {
+			return nil, harnessf("step path %s is not the kept fid's object %s", q(relOf(s.Path)), q(relOf(h.comps)))
+		}
+		m.held = append(m.held[:s.Use-1:s.Use-1], m.held[s.Use:]...)
+		m.cur = h
+		if err := m.fidCheck(h, "before reusing a fid kept from an earlier step"); err != nil {
+			return nil, err
+		}
+		return h, nil
+	}
+	f, err := m.walk(s.Path)
+	if err != nil {
+		return nil, err
+	}
+	h := &held{fid: f, comps: s.Path, alive: true, keepable: true}
+	h.inoA, _ = inoOf(under(m.A, s.Path))
+	h.inoB, _ = inoOf(under(m.B, s.Path))
+	m.cur = h
+	return h, nil
+}
+
+func (m *machine) drop(h *held) {
+	if h.alive {
+		m.clunk(h.fid)
+		h.alive = false
+	}
+	if h.fB != nil {
+		h.fB.Close()
+		h.fB = nil
+	}
+}
+
+func (m *machine) release(h *held, keep bool) {
+	if h.alive && keep && h.keepable && len(h.comps) > 0 && len(m.held) < maxHeld {
+		m.held = append(m.held, h)
+		return
+	}
+	m.drop(h)
+}
+
+// validateHeld drops every kept fid whose object is no longer what B has at
+// the fid's path (removed, replaced or moved away through another fid): what
+// such a fid refers to afterwards is not fixed by the statement.
+func (m *machine) validateHeld() {
+	var keep []*held
+	for _, h := range m.held {
+		if ino, ok := inoOf(under(m.B, h.comps)); ok && ino == h.inoB {
+			keep = append(keep, h)
+		} else {
+			m.drop(h)
+		}
+	}
+	m.held = keep
+}
+
+// fidCheck: the fid still names its object (Tstat name and qid.path).
+func (m *machine) fidCheck(h *held, when string) error {
+	rs, err := m.cl.Stat(h.fid)
+	if err != nil {
+		return m.rpcErr("Tstat", err)
+	}
+	obj := q(relOf(h.comps))
+	if rs.Type != ref9p.Rstat {
+		return fmt.Errorf("%s: Tstat on the fid of %s answers %s: the fid does not refer to its object", when, obj, show(rs))
+	}
+	if len(h.comps) > 0 && rs.Stat.Name != string(h.comps[len(h.comps)-1]) || rs.Stat.Qid.Path != h.inoA {
+		return fmt.Errorf("%s: the fid of %s (inode %d) stats as name %s qid.path %d: the fid refers to another object", when, obj, h.inoA, q(rs.Stat.Name), rs.Stat.Qid.Path)
+	}
+	return nil
 }
 
 var (
@@ -474,6 +577,14 @@ func newMachine(c *Case, known func(string) bool) (*machine, error) {
 }
 
 func (m *machine) close() {
+	for _, h := range m.held {
+		if h.fB != nil {
+			h.fB.Close()
+		}
+	}
+	if m.cur != nil && m.cur.fB != nil {
+		m.cur.fB.Close()
+	}
 	if m.cl != nil {
 		m.cl.Close()
 	}
@@ -530,6 +641,12 @@ func (m *machine) unchanged(pre []ent, what string) error {
 }
 
 func (m *machine) fid() uint32 { f := m.nextFid; m.nextFid++; return f }
+
+func cloneNames(c [][]byte, extra ...[]byte) [][]byte {
+	out := make([][]byte, 0, len(c)+len(extra))
+	out = append(out, c...)
+	return append(out, extra...)
+}
 
 func strs(comps [][]byte) []string {
 	s := make([]string, len(comps))
@@ -736,6 +853,19 @@ func (m *machine) Exec(s *Step) (*Outcome, error) {
 	default:
 		err = harnessf("unknown op %q", s.Op)
 	}
+	if h := m.cur; h != nil {
+		m.cur = nil
+		m.release(h, s.Keep && err == nil)
+	}
+	if err == nil {
+		m.validateHeld()
+	}
+	if s.Use > 0 {
+		if f := strings.Fields(o.Label); len(f) > 0 {
+			o.Label = "through a kept fid: " + f[0]
+		}
+		o.ArgClass += " kept-fid"
+	}
 	return o, err
 }
 
@@ -745,11 +875,14 @@ func (m *machine) execCreate(o *Outcome, s *Step) error {
 	}
 	tA := under(m.A, s.Path) + "/" + string(s.Name)
 	tB := under(m.B, s.Path) + "/" + string(s.Name)
-	fid, err := m.walk(s.Path)
+	h, err := m.acquire(s)
 	if err != nil {
 		return err
 	}
-	defer func() { m.clunk(fid) }()
+	if h.opened {
+		return harnessf("create through an open fid")
+	}
+	fid := h.fid
 	ext := string(s.Ext)
 	perm := s.Perm & 0o777
 	wperm := perm
@@ -833,20 +966,24 @@ func (m *machine) execCreate(o *Outcome, s *Step) error {
 					return errors.New(msg)
 				}
 			}
-			return m.compare(what)
+			if err := m.compare(what); err != nil {
+				return err
+			}
+			return m.fidCheck(h, what+" was answered with Rerror")
 		case "unknown":
 			o.Result = "occupied-error"
 			o.BFailed = true
-			return m.compare(what)
+			if err := m.compare(what); err != nil {
+				return err
+			}
+			return m.fidCheck(h, what+" was answered with Rerror")
 		}
 		extra = []syscall.Errno{syscall.EEXIST}
 	}
 	switch s.Kind {
 	case "file":
 		fB, errB = os.OpenFile(tB, flagsOf(s.Mode)|os.O_CREATE, os.FileMode(perm))
-		if fB != nil {
-			defer fB.Close()
-		}
+		h.fB = fB // closed when the fid is released
 	case "dir":
 		errB = os.Mkdir(tB, os.FileMode(perm))
 	case "symlink":
@@ -890,7 +1027,14 @@ func (m *machine) execCreate(o *Outcome, s *Step) error {
 		if err := m.unchanged(pre, what); err != nil {
 			return err
 		}
-		return m.compare(what)
+		if err := m.compare(what); err != nil {
+			return err
+		}
+		if lkind(under(m.B, s.Path)) != "free" {
+			// the fid still is the directory and can go on being used
+			return m.fidCheck(h, what+" was answered with Rerror")
+		}
+		return nil
 	}
 	if err := m.compare(what); err != nil {
 		return err
@@ -898,6 +1042,12 @@ func (m *machine) execCreate(o *Outcome, s *Step) error {
 	if bi, ok := inoOf(tB); ok && occ == "free" {
 		m.created[bi] = true
 	}
+	// the fid now is the new object, open with the requested mode
+	h.comps = cloneNames(s.Path, s.Name)
+	h.inoA, _ = inoOf(tA)
+	h.inoB, _ = inoOf(tB)
+	h.opened, h.mode = true, s.Mode
+	h.keepable = occ == "free"
 
 	// the fid refers to the created object
 	if occ == "free" {
@@ -1040,11 +1190,11 @@ func (m *machine) writeBoth(o *Outcome, fid uint32, fB *os.File, w WriteOp, ctx 
 
 func (m *machine) execWrite(o *Outcome, s *Step) error {
 	tB := under(m.B, s.Path)
-	fid, err := m.walk(s.Path)
+	h, err := m.acquire(s)
 	if err != nil {
 		return err
 	}
-	defer m.clunk(fid)
+	fid := h.fid
 	if fi, err := os.Stat(tB); err == nil {
 		if m.created[fi.Sys().(*syscall.Stat_t).Ino] {
 			o.Touched = true
@@ -1062,30 +1212,41 @@ func (m *machine) execWrite(o *Outcome, s *Step) error {
 	for _, w := range s.Writes {
 		o.ArgClass += " " + offClass(w.Off, size) + "/" + lenClass(len(w.Data))
 	}
-	what := fmt.Sprintf("Topen(%s, mode %d)", q(relOf(s.Path)), s.Mode)
-	r, err := m.cl.Open(fid, s.Mode)
-	if err != nil {
-		return m.rpcErr("Topen", err)
-	}
-	fB, errB := os.OpenFile(tB, flagsOf(s.Mode), 0)
-	if fB != nil {
-		defer fB.Close()
-	}
-	if (r.Type == ref9p.Rerror) != (errB != nil) {
-		return fmt.Errorf("%s before a write: 9P answers %s, OpenFile in B: %v", what, show(r), errB)
-	}
-	o.Result = errName(errB)
-	if errB != nil {
-		o.BFailed = true
-		return m.compare(what)
-	}
 	ctx := fmt.Sprintf("%s [%s]", q(relOf(s.Path)), o.ArgClass)
+	if h.opened {
+		// a fid kept open by an earlier create or write step
+		if h.fB == nil || (h.mode&3 != oWrite && h.mode&3 != oRdwr) {
+			return harnessf("write through a kept fid that is not open for writing on a file")
+		}
+		o.Result = "ok"
+		ctx += " through a fid kept open since an earlier step"
+	} else {
+		what := fmt.Sprintf("Topen(%s, mode %d)", q(relOf(s.Path)), s.Mode)
+		r, err := m.cl.Open(fid, s.Mode)
+		if err != nil {
+			return m.rpcErr("Topen", err)
+		}
+		fB, errB := os.OpenFile(tB, flagsOf(s.Mode), 0)
+		h.fB = fB
+		if (r.Type == ref9p.Rerror) != (errB != nil) {
+			return fmt.Errorf("%s before a write: 9P answers %s, OpenFile in B: %v", what, show(r), errB)
+		}
+		o.Result = errName(errB)
+		if errB != nil {
+			o.BFailed = true
+			return m.compare(what)
+		}
+		h.opened, h.mode = true, s.Mode
+	}
 	for _, w := range s.Writes {
-		if err := m.writeBoth(o, fid, fB, w, ctx); err != nil {
+		if err := m.writeBoth(o, fid, h.fB, w, ctx); err != nil {
 			return err
 		}
 	}
-	return m.compare("Twrite on " + ctx)
+	if err := m.compare("Twrite on " + ctx); err != nil {
+		return err
+	}
+	return m.fidCheck(h, "after Twrite on "+ctx)
 }
 
 func offClass(off uint64, size int64) string {
@@ -1135,10 +1296,11 @@ func (m *machine) removeClass(tB string) string {
 
 func (m *machine) execRemove(o *Outcome, s *Step) error {
 	tB := under(m.B, s.Path)
-	fid, err := m.walk(s.Path)
+	h, err := m.acquire(s)
 	if err != nil {
 		return err
 	}
+	fid := h.fid
 	var fid2 uint32
 	if s.Twice {
 		if fid2, err = m.walk(s.Path); err != nil {
@@ -1155,6 +1317,7 @@ func (m *machine) execRemove(o *Outcome, s *Step) error {
 	o.Label = o.ArgClass
 	what := fmt.Sprintf("Tremove(%s) [%s]", q(relOf(s.Path)), o.ArgClass)
 	pre := m.entA
+	h.alive = false // Tremove clunks the fid whatever the outcome
 	r, err := m.cl.Remove(fid)
 	if err != nil {
 		return m.rpcErr("Tremove", err)
@@ -1225,12 +1388,13 @@ func (m *machine) execWstat(o *Outcome, s *Step) error {
 	if nfields == 0 || (s.SetAtime && !s.SetMtime) {
 		return harnessf("bad wstat step")
 	}
-	fid, err := m.walk(s.Path)
+	h, err := m.acquire(s)
 	if err != nil {
 		return err
 	}
-	defer m.clunk(fid)
-	inoA, _ := inoOf(tA)
+	fid := h.fid
+	inoA := h.inoA
+	_ = tA
 	kind := lkind(tB)
 	if bi, ok := inoOf(tB); ok && m.created[bi] {
 		o.Touched = true
@@ -1392,7 +1556,14 @@ func (m *machine) execWstat(o *Outcome, s *Step) error {
 		return err
 	}
 	if errB != nil {
-		return nil
+		if gone {
+			return nil
+		}
+		// a refused wstat leaves the fid on its object
+		return m.fidCheck(h, what+" was answered with Rerror")
+	}
+	if len(s.Name) > 0 {
+		h.comps = cloneNames(s.Path[:len(s.Path)-1], s.Name)
 	}
 	// the fid refers to the (renamed) object
 	wantName := oldName
